@@ -179,3 +179,32 @@ func VP_C02_Branches() {
 	zzvp.Assert(vpFsck() == "", "the repository is connected after commit")
 	zzvp.Done()
 }
+
+// VP_C02_Identity: the recorded author and committer are the configured identity and the recorded message is the message
+// given, for free names and messages (printable bytes including '%', quotes, brackets; no '<', no leading '-').
+func VP_C02_Identity() {
+	vpInitRepo()
+	w, g := zzvp.Root(), vpG()
+	n := 1 + zzvp.Choose(zzvp.Param("namelen", 2))
+	name := zzvp.Str("nm0", 1, "!-,.-;=-~") // first byte: printable, not blank, not '-', not '<'
+	if n > 1 {
+		name += zzvp.Str("nm1", n-1, "!-;=-~") // last byte not blank either (values keep inner blanks only)
+	}
+	vpOK(zzvp.Run("config", "user.name", name))
+	zzvp.WriteFile(w+"/f", []byte("1"))
+	vpOK(zzvp.Run("add", "f"))
+	msg := zzvp.Str("msg", zzvp.Choose(zzvp.Param("msglen", 2)+1), vpMsgAlpha)
+	r := zzvp.Run("commit", "-m", msg)
+	zzvp.Assert(r.Exit == 0, "commit succeeds when something is staged")
+	if r.Exit != 0 {
+		return
+	}
+	tip, _, _ := vpBranch("main")
+	_, data, ok := vpReadObject(g, tip)
+	c := vpParseCommit(data)
+	zzvp.Assert(ok && c.ok, "the commit object is well-formed")
+	ident := name + " <a@b.cd> "
+	zzvp.Assert(len(c.author) > len(ident) && c.author[:len(ident)] == ident && c.committer == c.author, "author and committer are the configured identity")
+	zzvp.Assert(c.message == msg, "the recorded message is the message given")
+	zzvp.Done()
+}
